@@ -94,6 +94,28 @@ def isStrFrame : Option Frame → Bool
   | some (.indefStr _) => true
   | _ => false
 
+/-- The meaning of a head that does not depend on the enclosing frame
+    (the break byte is handled by `action`). -/
+def actionCore (major ai arg hlen : Nat) : Act :=
+  if major = 0 ∨ major = 1 then (if ai = 31 then .bad else .leaf hlen)
+  else if major = 2 ∨ major = 3 then
+    (if ai = 31 then .push (.indefStr major) else .leaf (hlen + arg))
+  else if major = 4 then
+    (if ai = 31 then .push .indefArr else if arg = 0 then .leaf hlen else .push (.defn arg))
+  else if major = 5 then
+    (if ai = 31 then .push (.indefMap false) else if arg = 0 then .leaf hlen
+     else .push (.defn (2 * arg)))
+  else if major = 6 then (if ai = 31 then .bad else .push (.defn 1))
+  else if ai = 31 then .bad
+  else if ai = 24 ∧ arg < 32 then .bad
+  else .leaf hlen
+
+/-- may the innermost frame be closed by a break byte here? -/
+def brkOk : Option Frame → Bool
+  | some .indefArr => true
+  | some (.indefMap false) => true
+  | _ => false
+
 /-- What a head means under the innermost open frame `top`. -/
 def action (top : Option Frame) (major ai arg hlen : Nat) : Act :=
   if 28 ≤ ai ∧ ai ≤ 30 then .bad
@@ -103,23 +125,8 @@ def action (top : Option Frame) (major ai arg hlen : Nat) : Act :=
     else if major = m ∧ ai ≠ 31 then .leaf (hlen + arg)
     else .bad
   | _ =>
-    if major = 0 ∨ major = 1 then (if ai = 31 then .bad else .leaf hlen)
-    else if major = 2 ∨ major = 3 then
-      (if ai = 31 then .push (.indefStr major) else .leaf (hlen + arg))
-    else if major = 4 then
-      (if ai = 31 then .push .indefArr else if arg = 0 then .leaf hlen else .push (.defn arg))
-    else if major = 5 then
-      (if ai = 31 then .push (.indefMap false) else if arg = 0 then .leaf hlen
-       else .push (.defn (2 * arg)))
-    else if major = 6 then (if ai = 31 then .bad else .push (.defn 1))
-    else
-      if ai = 31 then
-        (match top with
-         | some .indefArr => .brk
-         | some (.indefMap false) => .brk
-         | _ => .bad)
-      else if ai = 24 ∧ arg < 32 then .bad
-      else .leaf hlen
+    if major = 7 ∧ ai = 31 then (if brkOk top then .brk else .bad)
+    else actionCore major ai arg hlen
 
 inductive Step where
   | bad
